@@ -234,6 +234,24 @@ pub fn gen_base(rng: &mut Rng, m: Meth, class: ProbClass, entry: Entry) -> Scena
         };
     }
     sc.jac = if rng.bool(0.5) { JacMode::Fd } else { JacMode::Analytic };
+    if m.implicit() && class != ProbClass::LinHom && rng.bool(0.04) {
+        // singular-by-construction start: y' = lambda*y with first_step chosen so that the very
+        // first iteration matrix is exactly singular (BDF: I - (h/alpha_1)*J with alpha_1 = 1.185;
+        // RADAU: (U1/h)*I - J with U1 = 3.637834252744496). Exercises the LU-failure recovery
+        // paths (halve the step, re-factor) in fault-free runs. Powers of two keep it exact.
+        let k = rng.int(0, 6) as i32;
+        let d = if backward { -1.0 } else { 1.0 };
+        let p2 = (2.0f64).powi(k);
+        let (lambda, h0) = if m == Meth::BDF { (d * p2, 1.185 / p2) } else { (d * 3.637_834_252_744_496 * p2, 1.0 / p2) };
+        sc.prob = Problem::Decay { lam: -lambda };
+        sc.y0 = vec![rng.uni(0.5, 2.0)];
+        sc.x0 = if rng.bool(0.5) { 0.0 } else { rng.uni(-2.0, 2.0) };
+        sc.xend = sc.x0 + d * h0 * rng.uni(1.5, 4.0);
+        sc.first_step = Some(d * h0);
+        sc.jac = JacMode::Analytic;
+        sc.rtol = vec![sc.rtol[0]];
+        sc.atol = vec![sc.atol[0]];
+    }
     sc
 }
 
